@@ -96,10 +96,13 @@ Scenario(q) ==
   IF q.kind = "J" THEN
     [prop |-> "C12", key |-> "J",
      steps |-> << [op |-> "exec", ctx |-> 0, ast |-> q.x.ast, text |-> q.x.text], [op |-> "dump", ctx |-> 0], [op |-> "unparse", ctx |-> 0],
-                  [op |-> "execsaved", ctx |-> 1, from |-> 0, ast |-> q.x.ast], [op |-> "dump", ctx |-> 1], [op |-> "unparse", ctx |-> 1, same_text_as |-> 3] >>]
+                  [op |-> "execsaved", ctx |-> 1, from |-> 0, ast |-> q.x.ast], [op |-> "dump", ctx |-> 1], [op |-> "unparse", ctx |-> 1, same_text_as |-> 3] >>
+              \o (IF Failed(RunProgram(q.x.ast, State0)) THEN <<>> ELSE <<[op |-> "cli", mode |-> "save", ast |-> q.x.ast, text |-> q.x.text, args |-> <<>>]>>)]
   ELSE
     [prop |-> "C12", key |-> "R",
      steps |-> << [op |-> "exec", ctx |-> 0, free |-> TRUE, text |-> q.t], [op |-> "dump", ctx |-> 0], [op |-> "unparse", ctx |-> 0],
-                  [op |-> "execsaved", ctx |-> 1, from |-> 0, same_as |-> 1], [op |-> "dump", ctx |-> 1, same_as |-> 2, after |-> 4], [op |-> "unparse", ctx |-> 1, same_text_as |-> 3] >>]
+                  [op |-> "execsaved", ctx |-> 1, from |-> 0, same_as |-> 1], [op |-> "dump", ctx |-> 1, same_as |-> 2, after |-> 4], [op |-> "unparse", ctx |-> 1, same_text_as |-> 3],
+                  \* the same text typed into the CLI and written out by its `save` command: the saved file, run as a script, prints what the session printed
+                  [op |-> "cli", mode |-> "save", relsave |-> TRUE, text |-> q.t, args |-> <<>>] >>]
 Emit == PrintT("@@S " \o ToJson(Scenario(p)))
 =============================================================================
